@@ -758,6 +758,31 @@ pub fn mate(args: &[String]) -> i32 {
                     cs[r * 8 + f] = if weak_black { 1 } else { 7 };
                 }
             }
+            if rng.gen_bool(0.4) {
+                // template: the weak king on its back rank, a strong pawn two ranks in front on a neighbouring file
+                // (its push gives check from the seventh rank), a second strong pawn or the strong king nearby
+                for s in 0..64 {
+                    if cs[s] == 6 || cs[s] == 12 || cs[s] == 1 || cs[s] == 7 {
+                        cs[s] = 0;
+                    }
+                }
+                let kf = rng.gen_range(0..8i32);
+                let (back, pr, dir) = if weak_black { (7i32, 5i32, -1i32) } else { (0i32, 2i32, 1i32) };
+                cs[(back * 8 + kf) as usize] = if weak_black { 12 } else { 6 };
+                let pf = if kf == 0 { 1 } else if kf == 7 { 6 } else { kf + [-1, 1][rng.gen_range(0..2)] };
+                cs[(pr * 8 + pf) as usize] = if weak_black { 1 } else { 7 };
+                let g = (kf + [-2, -1, 0, 1, 2][rng.gen_range(0..5)]).clamp(0, 7);
+                let gs = (pr * 8 + g) as usize;
+                if cs[gs] == 0 {
+                    cs[gs] = if rng.gen_bool(0.5) { if weak_black { 1 } else { 7 } } else { if weak_black { 6 } else { 12 } };
+                }
+                if !cs.iter().any(|&c| c == if weak_black { 6 } else { 12 }) {
+                    let ks = ((pr + dir) * 8 + (kf + [-1, 0, 1][rng.gen_range(0..3)]).clamp(0, 7)) as usize;
+                    if cs[ks] == 0 {
+                        cs[ks] = if weak_black { 6 } else { 12 };
+                    }
+                }
+            }
         }
         let strong_to_move = won > 0;
         let wk = cs.iter().position(|&c| c == if weak_black { 12 } else { 6 }).unwrap();
